@@ -51,4 +51,11 @@ def jobs(tier):
     sp12 = importlib.util.spec_from_file_location("vfjobs_x_C12", os.path.join(os.path.dirname(__file__), "C12.py")); m12 = importlib.util.module_from_spec(sp12); m12.Job = Job; sp12.loader.exec_module(m12)
     for j in m12.jobs(tier):
         if j.group == "C12.oom": j.group = "C14.header"; j.name = "header_" + j.name; J.append(j)
+    J.append(Job(name="connection.complete", group="C14.connections", harness="harness/C09_pending.c", defines={"P": 0, "OP": 9}, real=["dbus/dbus-list.c"],
+                 env=["assert_stubs.c", "mem.c", "pool_lock.c", "msg_model.c", "msg_build.c"], checks="assert", unwind=7, unwindset=["strcmp.0:48"], timeout=300,
+                 encodes=["bus_connections_check_limits", "bus_connection_complete", "adjust_connections_for_uid", "get_connections_for_uid", "cache_peer_loginfo_string", "bus_connections_expire_incomplete"],
+                 stubs=["per-user table = one ghost counter", "string / policy / table operations = outcome stubs, the k-th one fails (k symbolic 0..8)", "limits symbolic 1..1000"],
+                 assumes=["inductive hypothesis: counts within limits before the step"],
+                 bounds="one Hello completing one incomplete connection; completed count, per-user count and both limits symbolic up to 1000; any single failing step",
+                 shape="connection completion step"))
     return J
